@@ -50,6 +50,7 @@ class _AccStub:
     consistent iterates is consistent; the part of the model fit carried by coefficients outside the working
     set is unchanged).  Every index is taken from the call arguments / the captured working set."""
     fire_at = 1
+    catalogue = None
     seen = None
     lin = None        # function (w_arg, second_arg, w_acc) -> consistent second component
 
@@ -64,7 +65,22 @@ class _AccStub:
             return w, second, False
         c = Ctx.cur
         k = len(w)
-        w_acc = shim.sarr([SymReal(c.fresh("wacc")) for _ in range(k)])
+        if _AccStub.catalogue is not None:
+            # proposals enumerated from a small catalogue (each coordinate independently; forks), keeps queries linear
+            import z3
+            from vf.sym import SymBool
+            vals = []
+            for _ in range(k):
+                pick = _AccStub.catalogue[-1]
+                for cand in _AccStub.catalogue[:-1]:
+                    c._nfresh += 1
+                    if bool(SymBool(z3.Bool("acc_pick#%d" % c._nfresh))):
+                        pick = cand
+                        break
+                vals.append(pick)
+            w_acc = shim.sarr(vals)
+        else:
+            w_acc = shim.sarr([SymReal(c.fresh("wacc")) for _ in range(k)])
         c.event('extrapolated')
         _AccStub.seen = dict(w_arg=[w[i] for i in range(k)], second=[second[i] for i in range(len(second))])
         return w_acc, _AccStub.lin(w, second, w_acc), True
@@ -78,6 +94,7 @@ def _install_acc_stub(h, cfg, Xc, fit_intercept, captured):
     n, p = Xc.shape
     solver = cfg['solver']
     _AccStub.fire_at = cfg['acc_stub']
+    _AccStub.catalogue = cfg.get('acc_catalogue')
     _AccStub.seen = None
     if solver == 'AndersonCD':
         def lin(w_arg, Xw_arg, w_acc):
@@ -153,7 +170,8 @@ def mk_datafit(h, name, n, ylabels=None):
     Dm = D()
     dm = dict(name=name)
     if name in ('Quadratic', 'QuadraticGroup'):
-        return (h.datafit(Dm.Quadratic) if name == 'Quadratic' else None), h.vec('y', n), dm
+        yv = h.vec('y', n) if ylabels is None else h.const(np.array(ylabels, dtype=float))
+        return (h.datafit(Dm.Quadratic) if name == 'Quadratic' else None), yv, dm
     if name == 'WeightedQuadratic':
         sw = h.const(np.array([1.0, 2.0, 0.5, 1.5][:n]))
         dm['sw'] = sw
@@ -198,11 +216,17 @@ def run_driver(h, cfg):
         seed = int(float(h._val('design_seed'))) if 'design_seed' in h.values else int(h.rng.random() * 2 ** 31)
         h.values['design_seed'] = seed
         rs = np.random.RandomState(seed)
-        nn, pp = 10, 6
+        nn, pp = 30, 16
         Xc = rs.randn(nn, pp)
         for j in range(1, pp):
             Xc[:, j] += rs.uniform(0, 3) * Xc[:, 0]
-        cfg = dict(cfg, p0=pp)
+        if cfg.get('p0', 1) >= X_of(cfg['X']).shape[1]:
+            cfg = dict(cfg, p0=pp)          # 'full working set' stays full on the larger design
+        else:
+            cfg = dict(cfg, p0=6)           # small working set, but large enough (> K=5) for the extrapolation to be regular
+        cfg = dict(cfg, w0_concrete=None, ylabels=None)
+        if cfg.get('two_iter'):
+            cfg['max_iter'] = 8            # several working-set changes on the larger design
     n, p = Xc.shape
     fit_intercept = cfg.get('fit_intercept', False)
     R = Rec()
@@ -260,7 +284,13 @@ def run_driver(h, cfg):
             w0 = h.arr(w0l)
             Xw0 = h.arr([z[i] for i in range(n)])
         else:
-            w0 = h.vec('w0_', nw)
+            if cfg.get('w0_concrete') is not None:
+                w0 = h.const(np.array(cfg['w0_concrete'], dtype=float))
+            elif cfg.get('warm_support') is not None:
+                # warm start supported on the listed coordinates only (others exactly zero)
+                w0 = h.arr([h.real('w0_%d' % k) if k in cfg['warm_support'] else 0.0 for k in range(nw)])
+            else:
+                w0 = h.vec('w0_', nw)
             b0 = w0[-1] if fit_intercept else 0.0
             if h.mode == 'sym':
                 Xw0 = h.arr([sum(Xc[i, j] * w0[j] for j in range(p)) + b0 for i in range(n)])
